@@ -216,9 +216,10 @@ package cluster
 //@ pred isLeaveEvent(ev) := isev(ev, Broadcast) && istype(ev.Broadcast_msg, MemberLeaveEvent)
 
 //@ func (*Member).PID()
-//@   trusted
+//@   props C19 C18
+//@   requires m != nil
 //@   modifies
-//@   ensures result != nil && fresh(result)
+//@   ensures[C19.member.agent-pid] result != nil && fresh(result) && result.Address == m.Host && result.ID == "cluster/" + m.ID
 
 //@ func (*Agent).memberJoin(member)
 //@   props C18 C19
